@@ -297,8 +297,9 @@ Theorem values_default_numeric cfg :
      from and its value is float(s) (pydicom; checked on every generated case), the result is float(s) *)
   (forall i c x tok, e_vr i = lit "DS" -> e_vm i = 1%nat ->
      get_elem_value cfg (i, VNum c x tok) = Ok (VNum CFloat x tok)) /\
-  (forall i c x tok s, e_vr i = lit "DS" -> e_vm i = 1%nat -> e_raw i = Some s -> py_float s = Ok x ->
-     exists y tok', get_elem_value cfg (i, VNum c x tok) = Ok (VNum CFloat y tok') /\ py_float s = Ok y) /\
+  (forall i c x tok s y, e_vr i = lit "DS" -> e_vm i = 1%nat -> e_raw i = Some s ->
+     py_float s = Ok y -> fval_eqb x y = true ->
+     exists x' tok', get_elem_value cfg (i, VNum c x tok) = Ok (VNum CFloat x' tok') /\ fval_eqb x' y = true) /\
   (* IS, one value: the int; int(s) when the element carries its text *)
   (forall i c z, e_vr i = lit "IS" -> e_vm i = 1%nat ->
      get_elem_value cfg (i, VInt c z) = Ok (VInt CInt z)) /\
@@ -319,7 +320,7 @@ Proof.
      get_elem_value cfg (i, VInt c z) = Ok (VInt CInt z)).
   { intros i c z Hvr Hvm. rewrite (gev_single cfg i _ CvInt); [reflexivity | rewrite Hvr; reflexivity | exact Hvm | rewrite Hvr, Hc; exact His | discriminate]. }
   split; [exact D1|]. split; [|split; [exact I1|split; [|split]]].
-  - intros i c x tok s Hvr Hvm _ Hs. exists x, tok. split; [apply D1; assumption | exact Hs].
+  - intros i c x tok s y Hvr Hvm _ _ Hs. exists x, tok. split; [apply D1; assumption | exact Hs].
   - intros i c z s Hvr Hvm _ Hs. exists z. split; [apply I1; assumption | exact Hs].
   - intros i cl xs Hvr Hvm. rewrite (gev_multi cfg i cl _ Hvm). rewrite Hvr, Hc, Hds.
     assert (mapM (conv_apply (c_get_text cfg) CvFloat) (map (fun p => VNum CDs (fst p) (snd p)) xs)
